@@ -209,6 +209,22 @@ CHECKS["C14"] = dict(
 _AUTHZ = ("TLA+ module Authz.tla states the requirements over a syntactic route classification; TLC enumerates the complete "
           "request space from the route inventory of the RUNNING app (ResourceMap), the harness executes every request on the "
           "real app + middleware in-process, and TLC evaluates every requirement on every observed decision")
+CHECKS["C15"] = dict(
+    engine="distro",
+    technique="TLA+ spec Distro.tla (owner-side register / deregister / connection close, delayed sync messages delivered in "
+              "any order, client index, anti-entropy rounds with the unguarded removal, node death / notice / start) "
+              "model-checked by TLC for the LIVENESS property Converges (<>[] all live nodes hold the owners' instances) "
+              "under fairness, with a negative control (stale client index on sync: endless delete / re-fetch cycle); "
+              "histories recorded on REAL three-node clusters with real gRPC client connections validated by TLC against "
+              "the spec (Trace_Distro.tla)",
+    text="The message-level model decides convergence for every interleaving of 3-4 operations with sync messages and "
+         "anti-entropy rounds; the cluster leg runs take-over, node-death/rejoin and seeded random scenarios on real "
+         "processes and compares what every live node returns after quiescence (and keeps returning) with the model.",
+    note="gRPC connection-owned ephemeral instances of one service; an address is registered through one node at a time; "
+         "HTTP-registered instances and heartbeat expiry are outside these scenarios (C13); quiescence = 29 s without "
+         "operations (two anti-entropy intervals), dead nodes get 21 s to be noticed; TSettle in the trace spec is the "
+         "converged state that the model-checked liveness property promises",
+    design_ref="5 C15")
 CHECKS["C16"] = dict(
     engine="authz", technique=_AUTHZ,
     text="Finite table property: every registered route of the main app x 6 path spellings x 4 methods x 5 token states x 5 "
